@@ -383,6 +383,11 @@ func (vc *FuncVC) storeLoc(st *State, l *Loc, v Term) *State {
 
 // load reads *p in state st.
 func (vc *FuncVC) load(st *State, p ssa.Value) Term {
+	if fv, ok := p.(*ssa.FreeVar); ok {
+		if t, ok := vc.immutableCell(fv); ok {
+			return t
+		}
+	}
 	pv := vc.val(p)
 	elem := p.Type().Underlying().(*types.Pointer).Elem()
 	suffix := vc.localSuffix(p)
@@ -485,6 +490,7 @@ func (vc *FuncVC) exec(in ssa.Instruction) {
 		t := vc.fresh("clo", SInt)
 		vc.assume(Cmp("<", IntLit(0), t))
 		vc.vals[x] = &Val{T: t, Typ: x.Type(), Clo: x}
+		vc.logClosure(x, t)
 	case *ssa.MakeChan:
 		t := vc.fresh("chan", SInt)
 		vc.assume(Cmp("<", IntLit(0), t))
@@ -1315,4 +1321,161 @@ func (vc *FuncVC) unescapedAllocs(at ssa.Instruction) []*ssa.Alloc {
 		}
 	}
 	return out
+}
+
+// immutableCell: a captured variable that is never assigned after the closures
+// sharing it were created (only initialised by its defining function before the
+// first MakeClosure). Its content is a constant for the closure body.
+func (vc *FuncVC) immutableCell(fv *ssa.FreeVar) (Term, bool) {
+	if t, ok := vc.cellConst[fv]; ok {
+		return t, t.S != ""
+	}
+	vc.cellConst[fv] = Term{}
+	fn := fv.Parent()
+	parent := fn.Parent()
+	elem := fv.Type().Underlying().(*types.Pointer).Elem()
+	if parent == nil || isStruct(elem) {
+		return Term{}, false
+	}
+	idx := -1
+	for i, f := range fn.FreeVars {
+		if f == fv {
+			idx = i
+		}
+	}
+	// the closure itself must only read it
+	if !onlyLoads(fv) {
+		return Term{}, false
+	}
+	// find the cell in the parent and check every other user
+	for _, b := range parent.Blocks {
+		for _, in := range b.Instrs {
+			mc, ok := in.(*ssa.MakeClosure)
+			if !ok || mc.Fn != fn {
+				continue
+			}
+			cell := mc.Bindings[idx]
+			if !cellImmutableIn(cell, parent) {
+				return Term{}, false
+			}
+		}
+	}
+	t := vc.declare("cell!"+fv.Name(), vc.sortOf(elem))
+	vc.assume(vc.typeInv(t, elem))
+	vc.cellConst[fv] = t
+	vc.note("captured variable %s is never reassigned after capture: read as a constant", fv.Name())
+	return t, true
+}
+
+func onlyLoads(v ssa.Value) bool {
+	refs := v.Referrers()
+	if refs == nil {
+		return false
+	}
+	for _, r := range *refs {
+		switch u := r.(type) {
+		case *ssa.DebugRef:
+		case *ssa.UnOp:
+			if u.Op != token.MUL {
+				return false
+			}
+		default:
+			return false
+		}
+	}
+	return true
+}
+
+// cellImmutableIn: in the defining function the cell is stored to only before
+// any closure captures it, and every closure capturing it only reads it.
+func cellImmutableIn(cell ssa.Value, parent *ssa.Function) bool {
+	switch c := cell.(type) {
+	case *ssa.Alloc:
+		refs := c.Referrers()
+		if refs == nil {
+			return false
+		}
+		var stores []*ssa.Store
+		var closures []*ssa.MakeClosure
+		for _, r := range *refs {
+			switch u := r.(type) {
+			case *ssa.DebugRef:
+			case *ssa.UnOp:
+				if u.Op != token.MUL {
+					return false
+				}
+			case *ssa.Store:
+				if u.Addr != c {
+					return false
+				}
+				stores = append(stores, u)
+			case *ssa.MakeClosure:
+				closures = append(closures, u)
+				for i, b := range u.Bindings {
+					if b == c {
+						if !onlyLoads(u.Fn.(*ssa.Function).FreeVars[i]) {
+							return false
+						}
+					}
+				}
+			default:
+				return false
+			}
+		}
+		for _, s := range stores {
+			for _, m := range closures {
+				sb, mb := s.Block(), m.Block()
+				if sb == mb {
+					if instrIndex(s) > instrIndex(m) {
+						return false
+					}
+				} else if !sb.Dominates(mb) || reachable(mb, sb) {
+					return false
+				}
+			}
+		}
+		return true
+	case *ssa.FreeVar:
+		// a cell passed down from an enclosing closure: must be read-only there too
+		return onlyLoadsOrCapture(c)
+	}
+	return false
+}
+
+func onlyLoadsOrCapture(v ssa.Value) bool {
+	refs := v.Referrers()
+	if refs == nil {
+		return false
+	}
+	for _, r := range *refs {
+		switch u := r.(type) {
+		case *ssa.DebugRef:
+		case *ssa.UnOp:
+			if u.Op != token.MUL {
+				return false
+			}
+		case *ssa.MakeClosure:
+		default:
+			return false
+		}
+	}
+	return true
+}
+
+func reachable(from, to *ssa.BasicBlock) bool {
+	seen := map[*ssa.BasicBlock]bool{}
+	stack := append([]*ssa.BasicBlock{}, from.Succs...)
+	for len(stack) > 0 {
+		x := stack[len(stack)-1]
+		stack = stack[:len(stack)-1]
+		if seen[x] {
+			continue
+		}
+		seen[x] = true
+		if x == to {
+			return true
+		}
+		stack = append(stack, x.Succs...)
+	}
+	return false
 }
